@@ -80,11 +80,16 @@ func armBlocks(ifi *ssa.If) []*ssa.BasicBlock {
 	return out
 }
 
-var edgeLabelCache = map[*ssa.Function]map[*ssa.BasicBlock]map[string]bool{}
+var edgeLabelCache = map[string]map[*ssa.BasicBlock]map[string]bool{}
 
 // edgeLabelSets is the must-analysis of typeSwitchArms for arbitrary labelled true-edges.
 func edgeLabelSets(fn *ssa.Function, label func(*ssa.If) (string, bool)) map[*ssa.BasicBlock]map[string]bool {
-	if c, ok := edgeLabelCache[fn]; ok {
+	return edgeLabelSetsKind(fn, "const", label)
+}
+
+func edgeLabelSetsKind(fn *ssa.Function, kind string, label func(*ssa.If) (string, bool)) map[*ssa.BasicBlock]map[string]bool {
+	ck := kind + "|" + fn.String()
+	if c, ok := edgeLabelCache[ck]; ok {
 		return c
 	}
 	type set = map[string]bool
@@ -144,8 +149,135 @@ func edgeLabelSets(fn *ssa.Function, label func(*ssa.If) (string, bool)) map[*ss
 			}
 		}
 	}
-	edgeLabelCache[fn] = val
+	edgeLabelCache[ck] = val
 	return val
+}
+
+// ntLabel: the If tests a value of the grammar's NT type for equality with a constant: the nonterminal's name.
+func ntLabel(f *Facts) func(*ssa.If) (string, bool) {
+	return func(ifi *ssa.If) (string, bool) {
+		bo, ok := ifi.Cond.(*ssa.BinOp)
+		if !ok || bo.Op != token.EQL {
+			return "", false
+		}
+		for _, pair := range [][2]ssa.Value{{bo.X, bo.Y}, {bo.Y, bo.X}} {
+			if n, isNamed := types.Unalias(pair[0].Type()).(*types.Named); !isNamed || n.Obj().Name() != "NT" {
+				continue
+			}
+			if k, ok := constInt(pair[1]); ok && int(k) < len(f.NTNames) && k >= 0 {
+				return f.NTNames[k], true
+			}
+		}
+		return "", false
+	}
+}
+
+// ntSetFor: the nonterminals for which block b can be reached, as far as the code says so: the block lies in the
+// arm(s) of comparisons of an NT value with constants (also multi-value cases), or under a call of a predicate of
+// the package on an NT value that returns true exactly in such arms, or under a lookup in a package-level
+// map[NT]bool literal. nil when b is not restricted this way.
+func (w *World) ntSetFor(b *ssa.BasicBlock) map[string]bool {
+	f := w.Facts()
+	fn := b.Parent()
+	if s := edgeLabelSetsKind(fn, "nt", ntLabel(f))[b]; len(s) > 0 {
+		return s
+	}
+	for _, a := range guardAtoms(b) {
+		if !a.Pol {
+			continue
+		}
+		switch x := a.V.(type) {
+		case *ssa.Call:
+			h := staticCallee(x)
+			if h == nil || !inRepo(h) || len(h.Params) != 1 || len(h.Blocks) == 0 {
+				continue
+			}
+			if n, isNamed := types.Unalias(h.Params[0].Type()).(*types.Named); !isNamed || n.Obj().Name() != "NT" {
+				continue
+			}
+			sets := edgeLabelSetsKind(h, "nt", ntLabel(f))
+			out := map[string]bool{}
+			ok := true
+			allInstrs(h, func(in ssa.Instruction) {
+				ret, isRet := in.(*ssa.Return)
+				if !isRet || len(ret.Results) != 1 {
+					return
+				}
+				switch rv := ret.Results[0].(type) {
+				case *ssa.Const:
+					if rv.Value != nil && rv.Value.String() == "true" {
+						if len(sets[ret.Block()]) == 0 {
+							ok = false
+						}
+						for k := range sets[ret.Block()] {
+							out[k] = true
+						}
+					}
+				case *ssa.Phi:
+					// `return nt == A || nt == B`: true arrives from the true edges of the comparisons
+					for i, e := range rv.Edges {
+						pb := rv.Block().Preds[i]
+						if c, isC := e.(*ssa.Const); isC && c.Value != nil && c.Value.String() == "true" {
+							if ifi, isIf := pb.Instrs[len(pb.Instrs)-1].(*ssa.If); isIf && pb.Succs[0] == rv.Block() {
+								if k, isNT := ntLabel(f)(ifi); isNT {
+									out[k] = true
+									continue
+								}
+							}
+							ok = false
+						} else if bo, isBo := e.(*ssa.BinOp); isBo {
+							// the last disjunct arrives as its value
+							fake := &ssa.If{Cond: bo}
+							if k, isNT := ntLabel(f)(fake); isNT {
+								out[k] = true
+								continue
+							}
+							ok = false
+						} else if c, isC := e.(*ssa.Const); !isC || c.Value == nil || c.Value.String() != "false" {
+							ok = false
+						}
+					}
+				case *ssa.BinOp:
+					fake := &ssa.If{Cond: rv}
+					if k, isNT := ntLabel(f)(fake); isNT {
+						out[k] = true
+					} else {
+						ok = false
+					}
+				default:
+					ok = false
+				}
+			})
+			if ok && len(out) > 0 {
+				return out
+			}
+		case *ssa.Lookup:
+			ld, isLd := x.X.(*ssa.UnOp)
+			if !isLd {
+				continue
+			}
+			g, isG := ld.X.(*ssa.Global)
+			if !isG {
+				continue
+			}
+			entries, ok := w.globalMapLiteral(g)
+			if !ok {
+				continue
+			}
+			out := map[string]bool{}
+			for _, e := range entries {
+				k, ok1 := constInt(e.Key)
+				c, ok2 := e.Val.(*ssa.Const)
+				if ok1 && ok2 && c.Value != nil && c.Value.String() == "true" && int(k) < len(f.NTNames) {
+					out[f.NTNames[k]] = true
+				}
+			}
+			if len(out) > 0 {
+				return out
+			}
+		}
+	}
+	return nil
 }
 
 func checkC16(w *World) {
